@@ -8,6 +8,7 @@ import (
 	"os"
 	"strings"
 	"sync"
+	"sync/atomic"
 	"time"
 
 	erpc "github.com/henrylee2cn/erpc/v6"
@@ -93,6 +94,7 @@ func newHistWorld(rec *Rec) *histWorld {
 	CurApp = w.app
 	w.backend = erpc.NewPeer(erpc.PeerConfig{})
 	w.backend.RouteCall(new(T))
+	w.backend.RouteCall(new(TB)) // /tb/chan: the result cannot be encoded
 	w.backend.RoutePush(new(U))
 	w.prox = erpc.NewPeer(erpc.PeerConfig{}, proxy.NewPlugin(func(*proxy.Label) proxy.Forwarder { return fwdT{w} }))
 	w.caller = erpc.NewPeer(erpc.PeerConfig{})
@@ -283,6 +285,64 @@ func (w *histWorld) op(op, tag string) {
 		a2.Close()
 		srv.Close()
 		w.rec.Emit("OpDone", "op", op, "v", statStr(st))
+	case "unencodable":
+		// known route, the handler succeeds, its result cannot be encoded: the reply write fails with a codec error
+		// (not connection-closed) and the serving side falls back to a 500 reply that carries the cause
+		st, _ := w.callT(w.direct, "/tb/chan", tag, nil, 2*time.Second)
+		w.opProbe(op, st)
+		w.rec.Emit("OpDone", "op", op, "v", statStr(st))
+	case "agedunknown", "agedknown":
+		// a serving peer of this process whose context age is so small that the handling context has expired when the
+		// reply is written: the write is refused (not connection-closed), the fallback reply is written without it
+		srv := erpc.NewPeer(erpc.PeerConfig{DefaultContextAge: time.Nanosecond})
+		srv.RouteCall(new(T))
+		cs, _, _, _ := connectPeers(w.caller, srv, w.name("GC"), w.name("GS"))
+		route := CallRoute
+		if op == "agedunknown" {
+			route = "/no/route"
+		}
+		st := erpc.NewStatus(-998, "SETUP", "")
+		if cs != nil {
+			st, _ = w.callT(cs, route, tag, nil, 2*time.Second)
+			w.opProbe(op, st)
+		}
+		srv.Close()
+		if cs != nil {
+			WaitUntil(500*time.Millisecond, func() bool { return !cs.Health() })
+		}
+		w.rec.Emit("OpDone", "op", op, "v", statStr(st))
+	case "wfailunknown", "wfailknown":
+		// the serving side's connection fails every write with a reset error while it still reads (the session looks
+		// healthy): the reply and the fallback reply both fail, the caller is answered only by the end of the session
+		srv := erpc.NewPeer(erpc.PeerConfig{})
+		srv.RouteCall(new(T))
+		a, b := Pipe(w.name("WC"), w.name("WS"))
+		fb := &wfailConn{Conn: b}
+		d := make(chan struct{})
+		go func() { srv.ServeConn(fb); close(d) }()
+		cs, _ := w.caller.ServeConn(a)
+		<-d
+		route := CallRoute
+		if op == "wfailunknown" {
+			route = "/no/route"
+		}
+		v := "-998|SETUP|"
+		if cs != nil {
+			cmd := cs.AsyncCall(route, &Arg{Tag: tag}, new(Res), make(chan erpc.CallCmd, 1), erpc.WithBodyCodec('j'))
+			// both attempts (reply, fallback reply) have been made
+			WaitUntil(2*time.Second, func() bool { return atomic.LoadInt32(&fb.attempts) >= 2 })
+			time.Sleep(time.Millisecond)
+			srv.Close() // the serving side gives the connection up: the pending call ends
+			select {
+			case <-cmd.Done():
+				v = statStr(cmd.Status())
+			case <-time.After(10 * time.Second):
+				v = "-999|HANG|"
+			}
+		} else {
+			srv.Close()
+		}
+		w.rec.Emit("OpDone", "op", op, "v", v, "attempts", atomic.LoadInt32(&fb.attempts))
 	case "securemismatch":
 		s1 := erpc.NewPeer(erpc.PeerConfig{}, secure.NewPlugin(9999, "0123456789abcdef"))
 		s2 := erpc.NewPeer(erpc.PeerConfig{}, secure.NewPlugin(9999, "fedcba9876543210"))
@@ -294,6 +354,30 @@ func (w *histWorld) op(op, tag string) {
 		s1.Close()
 		w.rec.Emit("OpDone", "op", op, "v", statStr(st))
 	}
+}
+
+// opProbe records what the caller of a failing operation observed as a probe of that name: the (code, msg, cause) of the
+// same failure must be the same every time it is repeated in the process. An operation that did not complete is a
+// matter of other properties and is not compared.
+func (w *histWorld) opProbe(name string, st *erpc.Status) {
+	if st.Code() == -999 {
+		return
+	}
+	v := statStr(st)
+	w.rec.Emit("Probe", "name", name, "v", v, "expected", v)
+}
+
+// wfailConn is the serving end of an in-memory connection every write of which fails with a reset error while reads
+// keep working, so that the session that owns it looks healthy. It counts the write attempts.
+type wfailConn struct {
+	*Conn
+	attempts int32
+}
+
+// Write implements net.Conn.
+func (c *wfailConn) Write(p []byte) (int, error) {
+	atomic.AddInt32(&c.attempts, 1)
+	return 0, errReset
 }
 
 // ownStatusPlug sends its own status object to the remote end and rejects the connection with it.
